@@ -387,7 +387,12 @@ func (d *Driver) judgeC08() {
 			}
 			return -1
 		}
+		var prevCbT time.Duration = -1 // entry time of the latest callback so far
 		for _, it := range items {
+			cbBefore := prevCbT
+			if it.kind == "promote" || it.kind == "demote" {
+				prevCbT = it.cb.T
+			}
 			switch it.kind {
 			case "rise":
 				rises = append(rises, it.c)
@@ -448,7 +453,14 @@ func (d *Driver) judgeC08() {
 				// promptness: outside stop calls the callback must run by the next quiescent point
 				// (same virtual instant: a goroutine preempted between clearing the claim and calling
 				// the callback is not at a quiescent point yet; positive stalls are allowed for)
-				if !stopStack(lf.Stack) && it.cb.T > lf.T+d.stallIn(k[0], lf.T, it.cb.T) {
+				// (callbacks are started in the order of the leadership changes: one that had to wait
+				// for its predecessor - a stop call reports its demotion at its very end, the next
+				// run's callbacks queue behind it - is late only with respect to that one)
+				base := lf.T
+				if cbBefore > base {
+					base = cbBefore
+				}
+				if !stopStack(lf.Stack) && it.cb.T > base+d.stallIn(k[0], lf.T, it.cb.T) {
 					d.h.violate("C08", "late-ondemote/fall-by:"+lf.Stack, fmt.Sprintf("i%d.%d lost leadership at step %d (%v) but OnDemote ran at step %d (%v)", k[0], k[1], lf.Step, lf.T, it.cb.Step, it.cb.T), it.cb.T, it.cb.Step)
 				}
 			}
